@@ -584,8 +584,14 @@ CLAIM = {
             'min/max emit one of the items, bounding every item (no rounding); the Welford variance in binary64 is never '
             'negative while its states are finite (the running mean moves towards the new item and never past it, so the '
             'two deviations have one sign: math.sqrt in stddev never sees a negative number), is exactly 0.0 on equal items '
-            'whatever their value, and is the literal 0.0 for fewer than two items. NOT proved: the MAGNITUDE of the error '
-            '(proportional to machine epsilon, count and conditioning) of the Welford variance/stddev and the '
+            'whatever their value, and is the literal 0.0 for fewer than two items; and the MAGNITUDE of its error is bounded: '
+            'with the data in [lo,hi], |x|<=A, hi-lo<=R, u=2^-53, eta=2^-1075, eps=uA+2uR+eta, the running mean is within '
+            '(k-1)eps of the exact mean, the sum of squared deviations S_k within Fb_k of the exact one (Fb_1=0, '
+            'Fb_(k+1)=(Fb_k+g_k)(1+u)+u*ssd_(k+1), g_k=4uR^2+eta+R(Eb_k+Eb_(k+1))+Eb_k*Eb_(k+1); closed form Fb_k <= '
+            '(1+u)^(k-1)(k-1)(g_(k-1)+u*ssd_k)), and every emitted variance (streaming and at completion) within '
+            'Fb_k/(k-1)(1+u)+u*ssd_k/(k-1)+eta of the exact sample variance: relative error proportional to machine epsilon, '
+            'the count and the conditioning (A*R/variance, R^2/variance). NOT proved: the binary64 error of stddev beyond '
+            'its sqrt being defined, and of the '
             'two-pass formal variance/stddev - it is TESTED by the oracle against exact rational arithmetic on every '
             'prefix with the explicit bound given in `rule`.',
     'note': 'Trusted: Coq kernel+VM incl. primitive 63-bit integers and binary64 floats (evaluation only; no '
